@@ -1,12 +1,48 @@
 package world
 
 import (
+	"bytes"
 	"fmt"
 	"io"
 	"net/http"
+	"strings"
 	"sync"
 	"time"
+
+	"github.com/18F/hmacauth"
+	"github.com/buzzfeed/sso/internal/proxy"
 )
+
+// hmacVerify authenticates a received request the way an upstream using the
+// documented library would: 18F/hmacauth with the published header list.
+func hmacVerify(key string, req *http.Request, body []byte) string {
+	parts := strings.SplitN(key, ":", 2)
+	if len(parts) != 2 {
+		return "bad-key"
+	}
+	hash, err := hmacauth.DigestNameToCryptoHash(parts[0])
+	if err != nil {
+		return "bad-key"
+	}
+	auth := hmacauth.NewHmacAuth(hash, []byte(parts[1]), proxy.HMACSignatureHeader, proxy.SignatureHeaders)
+	r2 := req.Clone(req.Context())
+	r2.Body = io.NopCloser(bytes.NewReader(body))
+	res, _, _ := auth.AuthenticateRequest(r2)
+	// (the library's own String() is off by one against its constants; name the result ourselves)
+	switch res {
+	case hmacauth.ResultMatch:
+		return "match"
+	case hmacauth.ResultMismatch:
+		return "mismatch"
+	case hmacauth.ResultNoSignature:
+		return "no-signature"
+	case hmacauth.ResultInvalidFormat:
+		return "invalid-format"
+	case hmacauth.ResultUnsupportedAlgorithm:
+		return "unsupported-algorithm"
+	}
+	return "unknown"
+}
 
 // Arrival is one request as an upstream backend received it.
 type Arrival struct {
@@ -22,6 +58,8 @@ type Arrival struct {
 	CL         int64
 	TE         []string
 	Marker     string // body marker returned to the client
+	HMAC       string // result of hmacauth.AuthenticateRequest at the upstream ("" = no key configured)
+	Tampered   string // component corrupted in flight by an L5 fault ("" = none)
 }
 
 // UpstreamBehaviour scripts how a backend answers.
@@ -39,10 +77,13 @@ type Upstreams struct {
 	log       *Log
 	Arrivals  []*Arrival
 	Behaviour map[string]*UpstreamBehaviour // per backend host; "" = default
+	HMACKeys  map[string]string             // per backend host: "algo:secret" shared with the proxy
+	// PendingTamper is set by the L5 corrupt fault when it fires and consumed by the next arrival.
+	PendingTamper string
 }
 
 func NewUpstreams(log *Log) *Upstreams {
-	return &Upstreams{log: log, Behaviour: map[string]*UpstreamBehaviour{}}
+	return &Upstreams{log: log, Behaviour: map[string]*UpstreamBehaviour{}, HMACKeys: map[string]string{}}
 }
 
 // SetBehaviour installs the answer script for a backend ("" = all).
@@ -79,6 +120,10 @@ func (u *Upstreams) Handler(backend string) http.Handler {
 			Header: req.Header.Clone(), Body: body, CL: req.ContentLength, TE: append([]string{}, req.TransferEncoding...)}
 		a.Marker = fmt.Sprintf("UPSTREAM-CONTENT[%s#%d]", backend, a.Seq)
 		u.Arrivals = append(u.Arrivals, a)
+		a.Tampered, u.PendingTamper = u.PendingTamper, ""
+		if key := u.HMACKeys[backend]; key != "" {
+			a.HMAC = hmacVerify(key, req, body)
+		}
 		b := u.Behaviour[backend]
 		if b == nil {
 			b = u.Behaviour[""]
